@@ -876,15 +876,22 @@ impl Scaler for FreeTypeScaler<'_> {
                 }
                 Anchor::Point { base, component } => {
                     let (base_offset, component_offset) = (base as usize, component as usize);
+                    // The base point must belong to a previously loaded
+                    // component of this glyph and the component point to the
+                    // one we just loaded; anything beyond that is unrelated
+                    // (or uninitialized) memory.
+                    // See <https://gitlab.freedesktop.org/freetype/freetype/-/blob/57617782464411201ce7bbc93b086c1b4d7d84a5/src/truetype/ttgload.c#L1011>
                     let base_point = self
                         .memory
                         .scaled
-                        .get(point_base + base_offset)
+                        .get(point_base..start_point)
+                        .and_then(|points| points.get(base_offset))
                         .ok_or(DrawError::InvalidAnchorPoint(glyph_id, base))?;
                     let component_point = self
                         .memory
                         .scaled
-                        .get(start_point + component_offset)
+                        .get(start_point..end_point)
+                        .and_then(|points| points.get(component_offset))
                         .ok_or(DrawError::InvalidAnchorPoint(glyph_id, component))?;
                     *base_point - *component_point
                 }
@@ -1252,15 +1259,22 @@ impl Scaler for HarfBuzzScaler<'_> {
                 }
                 Anchor::Point { base, component } => {
                     let (base_offset, component_offset) = (base as usize, component as usize);
+                    // The base point must belong to a previously loaded
+                    // component of this glyph and the component point to the
+                    // one we just loaded; anything beyond that is unrelated
+                    // (or uninitialized) memory.
+                    // See <https://gitlab.freedesktop.org/freetype/freetype/-/blob/57617782464411201ce7bbc93b086c1b4d7d84a5/src/truetype/ttgload.c#L1011>
                     let base_point = self
                         .memory
                         .points
-                        .get(point_base + base_offset)
+                        .get(point_base..start_point)
+                        .and_then(|points| points.get(base_offset))
                         .ok_or(DrawError::InvalidAnchorPoint(glyph_id, base))?;
                     let component_point = self
                         .memory
                         .points
-                        .get(start_point + component_offset)
+                        .get(start_point..end_point)
+                        .and_then(|points| points.get(component_offset))
                         .ok_or(DrawError::InvalidAnchorPoint(glyph_id, component))?;
                     *base_point - *component_point
                 }
